@@ -19,10 +19,46 @@ import (
 	"time"
 )
 
-const (
-	RepoDir  = "/repo"
-	VerifDir = "/verif"
+// RepoDir is the tree under observation, VerifDir this framework's checkout,
+// OutDir where evidence/ and replay/ are written. The registered commands use
+// the defaults (/repo, /verif, /verif). VERIF_REPO and VERIF_OUT exist so that
+// a seeded change can be tried on a scratch worktree, or a long background run
+// made, without touching /repo or the committed evidence.
+var (
+	RepoDir  = envOr("VERIF_REPO", "/repo")
+	VerifDir = envOr("VERIF_HOME", "/verif")
+	OutDir   = envOr("VERIF_OUT", VerifDir)
 )
+
+func envOr(k, def string) string {
+	if v := os.Getenv(k); v != "" {
+		return v
+	}
+	return def
+}
+
+// ModFlags returns the extra go flags a build inside VerifDir needs so that
+// go.uber.org/cff resolves to RepoDir: nothing for the default /repo (go.mod's
+// replace directive says so), otherwise a -modfile copy with the replace
+// directives rewritten.
+func ModFlags(work string) []string {
+	if RepoDir == "/repo" && VerifDir == "/verif" {
+		return nil
+	}
+	mf := filepath.Join(work, "verif.alt.mod")
+	if _, err := os.Stat(mf); err != nil {
+		b, err := os.ReadFile(filepath.Join(VerifDir, "go.mod"))
+		if err != nil {
+			Fatalf("%v", err)
+		}
+		t := strings.ReplaceAll(string(b), "=> /repo", "=> "+RepoDir)
+		t = strings.ReplaceAll(t, "=> ./g", "=> "+filepath.Join(VerifDir, "g"))
+		os.WriteFile(mf, []byte(t), 0o644)
+		sum, _ := os.ReadFile(filepath.Join(VerifDir, "go.sum"))
+		os.WriteFile(filepath.Join(work, "verif.alt.sum"), sum, 0o644)
+	}
+	return []string{"-modfile=" + mf}
+}
 
 // Env is the offline Go environment every go invocation needs here.
 func Env(extra ...string) []string {
@@ -118,14 +154,14 @@ type Evidence struct {
 }
 
 func (e *Evidence) Write() error {
-	if err := os.MkdirAll(filepath.Join(VerifDir, "evidence"), 0o755); err != nil {
+	if err := os.MkdirAll(filepath.Join(OutDir, "evidence"), 0o755); err != nil {
 		return err
 	}
 	b, err := json.MarshalIndent(e, "", " ")
 	if err != nil {
 		return err
 	}
-	return os.WriteFile(filepath.Join(VerifDir, "evidence", e.PropertyID+".json"), append(b, '\n'), 0o644)
+	return os.WriteFile(filepath.Join(OutDir, "evidence", e.PropertyID+".json"), append(b, '\n'), 0o644)
 }
 
 // ---------------------------------------------------------------------------
@@ -276,7 +312,7 @@ func (r *Report) Finish() int {
 		fmt.Printf("OK property=%s tier=%s wall=%.1fs\n", r.Prop, r.Tier, time.Since(r.Start).Seconds())
 		return 0
 	}
-	dir := filepath.Join(VerifDir, "replay", r.Prop)
+	dir := filepath.Join(OutDir, "replay", r.Prop)
 	os.MkdirAll(dir, 0o755)
 	max := len(r.viol)
 	if max > 20 && os.Getenv("VERIF_ALLVIOL") == "" {
@@ -371,6 +407,7 @@ func BuildCff(work string) string {
 func BuildHarness(work, pkg, outName string, race bool, tags string) string {
 	out := filepath.Join(work, outName)
 	args := []string{"build", "-o", out}
+	args = append(args, ModFlags(work)...)
 	if tags != "" {
 		args = append(args, "-tags", tags)
 	}
